@@ -1063,7 +1063,10 @@ def _sub_lazy(sh, case):
         sh.outcome((tuple(sizes), tuple(got[-1:])))
         sh.nontriv()
         return
-    got = [tuple(int(v) for v in t) for t in lazy_indices_product(list(sizes))]
+    # the generator is never consumed beyond one tuple more than the product of the sizes: a wrong element count (1e9 tuples for
+    # sizes [65537, 2] when the place values come from the wrong end) is reported by the comparison, not by exhausting memory
+    cap = math.prod(int(x) for x in sizes) + 1
+    got = [tuple(int(v) for v in t) for t in itertools.islice(lazy_indices_product(list(sizes)), cap)]
     ref = list(itertools.product(*[range(s) for s in sizes]))
     sh.count("evaluations", len(ref))
     cls = "all-sizes-equal" if len(set(sizes)) == 1 else "sizes-not-all-equal"
@@ -1075,16 +1078,16 @@ def _sub_lazy(sh, case):
                      {"got": got[:12]})
     # two generators alive at once (the second for the reversed sizes), consumed alternately: no shared state
     rev = list(reversed(sizes))
-    g1, g2 = lazy_indices_product(list(sizes)), lazy_indices_product(rev)
+    g1, g2 = itertools.islice(lazy_indices_product(list(sizes)), cap), itertools.islice(lazy_indices_product(rev), cap)
     a, b = [], []
     for t1, t2 in itertools.zip_longest(g1, g2):
         if t1 is not None:
             a.append(tuple(int(v) for v in t1))
         if t2 is not None:
             b.append(tuple(int(v) for v in t2))
-    again = [tuple(int(v) for v in t) for t in lazy_indices_product(list(sizes))]
+    again = [tuple(int(v) for v in t) for t in itertools.islice(lazy_indices_product(list(sizes)), cap)]
     sh.count("evaluations", 3 * len(ref))
-    alone = [tuple(int(v) for v in t) for t in lazy_indices_product(list(rev))]
+    alone = [tuple(int(v) for v in t) for t in itertools.islice(lazy_indices_product(list(rev)), cap)]
     if a != got or again != got or b != alone:
         sh.violation(f"C14:lazy-product:depends-on-other-generators-or-earlier-calls:{cls}",
                      f"lazy_indices_product({sizes}) interleaved with lazy_indices_product({rev}), then called again: "
